@@ -56,7 +56,8 @@ class Stats:
     """Per-shard / per-run counters; mergeable; picklable."""
 
     MAX_SAMPLES = 6
-    MAX_VIOLATIONS = 40
+    PER_SIG = 2
+    MAX_SIGS = 400
 
     def __init__(self):
         self.evaluations = 0          # executions of real code under harness
@@ -84,17 +85,17 @@ class Stats:
             self.samples.append(jsonable(s))
 
     def violation(self, sig, case, message):
+        """Keep at most PER_SIG examples per distinct signature (and at most
+        MAX_SIGS signatures); every call is counted."""
         self.counters['violations_raw'] += 1
-        if len(self.violations) < self.MAX_VIOLATIONS:
-            self.violations.append({'sig': jsonable(sig), 'case': jsonable(case),
-                                    'message': message})
-        else:
-            # keep one representative per distinct signature beyond the cap
-            key = json.dumps(jsonable(sig), sort_keys=True)
-            seen = {json.dumps(v['sig'], sort_keys=True) for v in self.violations}
-            if key not in seen and len(self.violations) < 4 * self.MAX_VIOLATIONS:
-                self.violations.append({'sig': jsonable(sig), 'case': jsonable(case),
-                                        'message': message})
+        sig = jsonable(sig)
+        key = json.dumps(sig, sort_keys=True)
+        n = sum(1 for v in self.violations if v['key'] == key)
+        distinct = len({v['key'] for v in self.violations})
+        if n >= self.PER_SIG or (n == 0 and distinct >= self.MAX_SIGS):
+            return
+        self.violations.append({'key': key, 'sig': sig, 'case': jsonable(case),
+                                'message': message})
 
     def merge(self, o):
         self.evaluations += o.evaluations
@@ -109,8 +110,11 @@ class Stats:
             if len(self.samples) < self.MAX_SAMPLES:
                 self.samples.append(s)
         for v in o.violations:
-            if len(self.violations) < 4 * self.MAX_VIOLATIONS:
-                self.violations.append(v)
+            n = sum(1 for w in self.violations if w['key'] == v['key'])
+            distinct = len({w['key'] for w in self.violations})
+            if n >= self.PER_SIG or (n == 0 and distinct >= self.MAX_SIGS):
+                continue
+            self.violations.append(v)
         self.notes.extend(n for n in o.notes if n not in self.notes)
         self.capped = self.capped or o.capped
 
@@ -128,6 +132,8 @@ def _match_value(pat, val):
         return any(_match_value(p, val) for p in pat)
     if isinstance(pat, dict) and 'contains' in pat:
         return isinstance(val, str) and pat['contains'] in val
+    if isinstance(pat, dict) and 'eq' in pat:
+        return pat['eq'] == val
     return pat == val
 
 
